@@ -648,12 +648,17 @@ class Blockwise(ArrayExpr):
                     new_args.extend([arg, arg_ind])
                 else:
                     arg_slices = []
-                    for dim_idx in arg_ind:
+                    for pos, dim_idx in enumerate(arg_ind):
                         try:
                             out_pos = out_ind.index(dim_idx)
-                            arg_slices.append(slice_index[out_pos])
                         except ValueError:
                             arg_slices.append(slice(None))
+                            continue
+                        if out_pos in sliced_axes and arg.shape[pos] != self.shape[out_pos]:
+                            # Broadcast operand axis: the output slice does not
+                            # select the same positions of this operand.
+                            return None
+                        arg_slices.append(slice_index[out_pos])
 
                     sliced_arg = new_collection(arg)[tuple(arg_slices)]
                     new_args.extend([sliced_arg.expr, arg_ind])
@@ -776,6 +781,10 @@ class Blockwise(ArrayExpr):
 
                         if br is None:
                             arg_slices.append(slice(None))
+                        elif arg.numblocks[dim_idx] != self.numblocks[out_pos]:
+                            # Broadcast operand axis: output block ranges do
+                            # not select the same blocks of this operand.
+                            return None
                         else:
                             first, last = br
                             if last < first:  # Empty
